@@ -563,5 +563,8 @@ def run(ctx: Ctx) -> None:
     ctx.attempt(rule_r5, ctx)
     ctx.attempt(rule_r6, ctx, g)
     ctx.attempt(rule_r7, ctx)
+    from . import layouttext
+
+    ctx.attempt(layouttext.rule_c16_r8, ctx)
     ctx.assume("kind inference is annotation-seeded; unresolved receivers fall back to by-name dispatch (over-approximation, sound for must-not-reach)")
     ctx.undecided("actual wall-clock and memory; the residue enumeration is exponential in the number of distinct residues but bounded by the divisor, which is what the property states")
